@@ -18,6 +18,9 @@ func ptr[T any](v T) *T { return &v }
 
 var theEnum = EnumEnv{Name: "Color", Prefix: "COLOR_", Options: []string{"RED", "GREEN", "BLUE", "DARK_RED"}}
 
+// the same enum with its zero option declared explicitly (rules can then name it)
+var theEnumZ = EnumEnv{Name: "Color", Prefix: "COLOR_", Unspecified: "UNSPECIFIED", Options: []string{"RED", "GREEN", "BLUE", "DARK_RED"}}
+
 // genEnum: the enum of a compile unit: default or explicit prefix, options
 // written short or prefixed, an explicit UNSPECIFIED now and then, descriptions
 func genEnum(r *vh.Rand) EnumEnv {
@@ -276,6 +279,14 @@ func genFTy(r *vh.Rand, scope string, env EnumEnv) (FTy, string) {
 			}
 			for i := r.Intn(3); i > 0; i-- {
 				er.NotIn = append(er.NotIn, name())
+			}
+			if env.stdZero() && r.Chance(35) { // the explicit zero option can be named
+				z := vh.Pick(r, []string{"UNSPECIFIED", env.Prefix + "UNSPECIFIED", env.Unspecified})
+				if r.Chance(65) {
+					er.NotIn = append(er.NotIn, z)
+				} else {
+					er.In = append(er.In, z)
+				}
 			}
 			if r.Chance(4) {
 				er.NotIn = append(er.NotIn, vh.Pick(r, []string{"PURPLE", "UNSPECIFIED", "red"}))
